@@ -1101,6 +1101,7 @@ func init() {
 		st.clock++
 		return fmt.Sprintf("uuid-%d", st.clock)
 	}
+	externals["go.mongodb.org/mongo-driver/bson.Marshal"] = func(fr *frame, a []value) value { return tuple{[]value{}, iface{}} }
 	externals["(*sync.Map).Store"] = ext۰syncMap۰Store
 	externals["(*sync.Map).Load"] = ext۰syncMap۰Load
 	externals["(*sync.Map).Delete"] = ext۰syncMap۰Delete
